@@ -194,12 +194,17 @@ inductive ObsKeys (ok : Key → Prop) : Tree → Prop
 /-- `k` is the attribute slot of some defined Computable -/
 def St.isSlot (s : St) (k : Key) : Prop := ∃ c x, s.comps c = some x ∧ (x.owner, x.name) = k
 
+/-- the declared kind of the attribute `k` (Observable or Computable) -/
+def St.kindAt (s : St) (k : Key) : Option Kind :=
+  ((s.regs k.1).decls.find? (fun d => d.name == k.2)).map (·.kind)
+
 structure Stat (s : St) : Prop where
   progs : ∀ h, s.progs h = []
   regs : ∀ o, RegOK (s.regs o)
   pure : ∀ c x, s.comps c = some x → Pure x.tree
   ranked : ∀ c x, s.comps c = some x → Ranked c x.tree
-  obsKeys : ∀ c x, s.comps c = some x → ObsKeys (fun k => ¬ s.isSlot k) x.tree
+  obsKind : ∀ c x, s.comps c = some x → ObsKeys (fun k => s.kindAt k = some .obs) x.tree
+  slotKind : ∀ c x, s.comps c = some x → s.kindAt (x.owner, x.name) = some .comp
   slots : ∀ c c' x x', s.comps c = some x → s.comps c' = some x' → x.owner = x'.owner → x.name = x'.name → c = c'
 
 /-- nothing static changed: handler programs, declarations, and owner / name / function of every Computed -/
@@ -261,8 +266,18 @@ theorem ObsKeys.mono {ok ok' : Key → Prop} (h : ∀ k, ok k → ok' k) {t : Tr
   | readC c cont _ ih => exact .readC c cont ih
   | write k v t _ ih => exact .write k v t ih
 
+theorem StaticEq.kindAt {s s' : St} (a : StaticEq s s') (k : Key) : s'.kindAt k = s.kindAt k := by
+  simp [St.kindAt, a.decls]
+
+/-- what a function reads as a plain Observable is never the slot of a Computable -/
+theorem Stat.obsKeys {s : St} (w : Stat s) (c : Nat) (x : Comp) (hx : s.comps c = some x) :
+    ObsKeys (fun k => ¬ s.isSlot k) x.tree := by
+  refine (w.obsKind c x hx).mono ?_
+  rintro k hk ⟨c', x', hx', rfl⟩
+  rw [w.slotKind c' x' hx'] at hk; cases hk
+
 theorem Stat.of_staticEq {s s' : St} (w : Stat s) (a : StaticEq s s') : Stat s' := by
-  refine ⟨fun h => by rw [a.progs]; exact w.progs h, fun o => RegOK.of_decls (a.decls o) (w.regs o), ?_, ?_, ?_, ?_⟩
+  refine ⟨fun h => by rw [a.progs]; exact w.progs h, fun o => RegOK.of_decls (a.decls o) (w.regs o), ?_, ?_, ?_, ?_, ?_⟩
   · intro c x' h'
     obtain ⟨x, h, _, _, ht⟩ := a.defined' h'
     rw [ht]; exact w.pure c x h
@@ -272,7 +287,10 @@ theorem Stat.of_staticEq {s s' : St} (w : Stat s) (a : StaticEq s s') : Stat s' 
   · intro c x' h'
     obtain ⟨x, h, _, _, ht⟩ := a.defined' h'
     rw [ht]
-    exact (w.obsKeys c x h).mono fun k hk hs => hk ((a.isSlot k).mp hs)
+    exact (w.obsKind c x h).mono fun k hk => by rw [a.kindAt]; exact hk
+  · intro c x' h'
+    obtain ⟨x, h, h1, h2, _⟩ := a.defined' h'
+    rw [a.kindAt, h1, h2]; exact w.slotKind c x h
   · intro c c' x x' h h' ho hn
     obtain ⟨y, g, g1, g2, _⟩ := a.defined' h
     obtain ⟨y', g', g1', g2', _⟩ := a.defined' h'
@@ -792,6 +810,26 @@ theorem addParent_not_noneVal {s s' : St} (w : ∀ o, RegOK (s.regs o)) {p : Nat
       · simp only [ho] at h
         injection h with _ h; injection h with h; subst h; simp
 
+/-- the remembered value differs from the present one (for a Computable: from its up-to-date value) -/
+def Stale (s : St) : PRef × Int → Prop
+  | (.obs k, v) => s.store k ≠ v
+  | (.comp c, v) => ∃ y, s.comps c = some y ∧ y.dirty = false ∧ y.value ≠ some v
+
+theorem Stale.keep {s s' : St} (hst : s'.store = s.store)
+    (hk : ∀ q x, s.comps q = some x → x.dirty = false → s'.comps q = some x) {e : PRef × Int} (h : Stale s e) :
+    Stale s' e := by
+  obtain ⟨p, v⟩ := e
+  cases p with
+  | obs k => simpa [Stale, hst] using h
+  | comp c =>
+    obtain ⟨y, hy, hd, hv⟩ := h
+    exact ⟨y, hk c y hy hd, hd, hv⟩
+
+/-- why the function body of a Computed ran (or did not) between two states: at most once, and then only on
+    the first evaluation or because something it remembered differs from the present value -/
+def Justified (x : Comp) (s' : St) (y : Comp) : Prop :=
+  y.evals = x.evals ∨ (y.evals = x.evals + 1 ∧ x.dirty = true ∧ (x.first = true ∨ ∃ e ∈ x.parents, Stale s' e))
+
 /-! ### reading a Computable: the induction -/
 
 /-- what `Computable.__get__` of `c` guarantees when it returns `v` -/
@@ -801,7 +839,8 @@ structure PostGet (S : Nat → Prop) (c : Nat) (s s' : St) (v : Int) : Prop wher
   store : s'.store = s.store
   cur : s'.cur = s.cur
   dead : s'.dead = s.dead
-  clean : ∃ y, s'.comps c = some y ∧ y.dirty = false ∧ y.value = some v
+  clean : ∃ y, s'.comps c = some y ∧ y.dirty = false ∧ y.value = some v ∧
+    ∀ x, s.comps c = some x → Justified x s' y
   keepClean : ∀ q x, s.comps q = some x → x.dirty = false → s'.comps q = some x
   above : ∀ q, c < q → s.cur ≠ some q → s'.comps q = s.comps q
   curPar : ∀ p x, s.cur = some p → s.comps p = some x →
@@ -932,7 +971,7 @@ theorem evalTree_spec {rec : Rec} (ih : IH rec) (c : Nat) (S : Nat → Prop) (hS
         simp only at h
         have pg := hpost v1 rfl
         obtain ⟨own, hc1⟩ := pg.curPar c x hcur hx
-        obtain ⟨y1, hy1, hyd1, hyv1⟩ := pg.clean
+        obtain ⟨y1, hy1, hyd1, hyv1, _⟩ := pg.clean
         have hcons : ∀ e ∈ x.parents, e.1 = .comp c' → e.2 = v1 := by
           intro e he hek
           have := hcurr e ((hps e).mpr he)
@@ -968,11 +1007,6 @@ theorem evalTree_spec {rec : Rec} (ih : IH rec) (c : Nat) (S : Nat → Prop) (hS
         · intro e; rw [← hmem' e]; simp [List.append_assoc]
         · intro e he; exact hcurr' e (by simpa [List.append_assoc] using he)
 
-
-/-- the remembered value differs from the present one (for a Computable: from its up-to-date value) -/
-def Stale (s : St) : PRef × Int → Prop
-  | (.obs k, v) => s.store k ≠ v
-  | (.comp c, v) => ∃ y, s.comps c = some y ∧ y.dirty = false ∧ y.value ≠ some v
 
 /-- the dirty pre-check of Computed `c` over its remembered parents `ps` -/
 theorem precheck_spec {rec : Rec} (ih : IH rec) (c : Nat) (S : Nat → Prop) (hSlt : ∀ q, S q → c < q) :
@@ -1048,7 +1082,7 @@ theorem precheck_spec {rec : Rec} (ih : IH rec) (c : Nat) (S : Nat → Prop) (hS
             injection h with h; injection h with h1 h2; subst h1 h2
             refine ⟨fun b hb => ?_, by simp⟩
             injection hb with hb; subst hb
-            obtain ⟨y, hy, hyd, hyv⟩ := pg.clean
+            obtain ⟨y, hy, hyd, hyv, _⟩ := pg.clean
             refine ⟨pg.inv, pg.stat, pg.store, pg.cur.trans hcur, pg.dead, pg.keepClean, hab, fun h => (by cases h),
               fun _ => ⟨(.comp c4, v), by simp, y, hy, hyd, ?_⟩⟩
             rw [hyv]; intro e; injection e with e; exact hne e
@@ -1062,7 +1096,7 @@ theorem precheck_spec {rec : Rec} (ih : IH rec) (c : Nat) (S : Nat → Prop) (hS
               fun q y hy hd => i6 q y (pg.keepClean q y hy hd) hd, fun q hq => (i7 q hq).trans (hab q hq),
               fun hb' e he => ?_, fun hb' => ?_⟩
             · rcases List.mem_cons.mp he with rfl | he
-              · obtain ⟨y, hy, hyd, hyv⟩ := pg.clean
+              · obtain ⟨y, hy, hyd, hyv, _⟩ := pg.clean
                 exact ⟨y, i6 c4 y hy hyd, by rw [hyv, hveq], Or.inl hyd⟩
               · exact i8 hb' e he
             · obtain ⟨e, he, hs⟩ := i9 hb'
@@ -1246,7 +1280,7 @@ theorem callC_spec {rec : Rec} (ih : IH rec) (c : Nat) (S : Nat → Prop) (hSc :
     {s s' : St} {r : R} {x : Comp} (w : Stat s) (inv : Inv S NoP s) (hx : s.comps c = some x)
     (h : callC rec c x s = some (s', r)) :
     (∀ v, r = .ok v → Inv S NoP s' ∧ StaticEq s s' ∧ s'.store = s.store ∧ s'.cur = s.cur ∧ s'.dead = s.dead ∧
-      (∃ y, s'.comps c = some y ∧ y.dirty = false ∧ y.value = some v) ∧
+      (∃ y, s'.comps c = some y ∧ y.dirty = false ∧ y.value = some v ∧ Justified x s' y) ∧
       (∀ q y, s.comps q = some y → y.dirty = false → s'.comps q = some y) ∧
       (∀ q, c < q → s'.comps q = s.comps q) ∧
       (x.dirty = false → x.value = some v)) ∧
@@ -1265,7 +1299,8 @@ theorem callC_spec {rec : Rec} (ih : IH rec) (c : Nat) (S : Nat → Prop) (hSc :
     injection h with h; injection h with h1 h2; subst h1 h2
     refine ⟨fun v hv => ?_, by simp⟩
     injection hv with hv; subst hv
-    exact ⟨inv, StaticEq.refl s, rfl, rfl, rfl, ⟨x, hx, hd, hv0⟩, fun _ _ h _ => h, fun _ _ => rfl, fun _ => hv0⟩
+    exact ⟨inv, StaticEq.refl s, rfl, rfl, rfl, ⟨x, hx, hd, hv0, Or.inl rfl⟩, fun _ _ h _ => h, fun _ _ => rfl,
+      fun _ => hv0⟩
   · have hd' : x.dirty = true := by cases hxd : x.dirty <;> simp_all
     rw [if_neg (by simp [hd'])] at h
     have invS' : Inv (fun q => S q ∨ q = c) NoP s := inv.push hx hd'
@@ -1281,8 +1316,9 @@ theorem callC_spec {rec : Rec} (ih : IH rec) (c : Nat) (S : Nat → Prop) (hSc :
       obtain ⟨hok, hnn⟩ := evalBody_spec ih c S hSc hSlt (x := { x with first := false }) (w.of_staticEq se0) inv0
         (setComp_same _ _ _) rfl hsaved h
       refine ⟨fun v hv => ?_, hnn⟩
-      obtain ⟨i1, i2, i3, i4, i5, ⟨y, hy, hyd, hyv, _⟩, i7, i8⟩ := hok v hv
-      refine ⟨i1, se0.trans i2, i3, i4, i5, ⟨y, hy, hyd, hyv⟩, ?_, ?_, fun h' => by simp [hd'] at h'⟩
+      obtain ⟨i1, i2, i3, i4, i5, ⟨y, hy, hyd, hyv, hye⟩, i7, i8⟩ := hok v hv
+      refine ⟨i1, se0.trans i2, i3, i4, i5, ⟨y, hy, hyd, hyv, Or.inr ⟨hye, hd', Or.inl hf⟩⟩, ?_, ?_,
+        fun h' => by simp [hd'] at h'⟩
       · intro q y0 hy0 hd0
         have hq : q ≠ c := by intro e; subst e; rw [hx] at hy0; cases hy0; simp [hd'] at hd0
         exact i7 q y0 (by rw [setComp_ne _ _ hq]; exact hy0) hd0
@@ -1332,8 +1368,10 @@ theorem callC_spec {rec : Rec} (ih : IH rec) (c : Nat) (S : Nat → Prop) (hSc :
         obtain ⟨hok2, hnn2⟩ := evalBody_spec ih c S hSc hSlt (w.of_staticEq se1) (inv1.push (c := c) hc1 hd')
           (by exact hc1) hf' hsaved h
         refine ⟨fun v hv => ?_, hnn2⟩
-        obtain ⟨j1, j2, j3, j4, j5, ⟨y, hy, hyd, hyv, _⟩, j7, j8⟩ := hok2 v hv
-        exact ⟨j1, se1.trans j2, j3.trans i3, j4, j5.trans i5, ⟨y, hy, hyd, hyv⟩,
+        obtain ⟨j1, j2, j3, j4, j5, ⟨y, hy, hyd, hyv, hye⟩, j7, j8⟩ := hok2 v hv
+        obtain ⟨e0, he0, hst0⟩ := i9 rfl
+        exact ⟨j1, se1.trans j2, j3.trans i3, j4, j5.trans i5,
+          ⟨y, hy, hyd, hyv, Or.inr ⟨hye, hd', Or.inr ⟨e0, he0, Stale.keep (s := s1) j3 j7 hst0⟩⟩⟩,
           fun q y0 hy0 hd0 => j7 q y0 (hkeep1 q y0 hy0 hd0) hd0,
           fun q hq => (j8 q hq).trans (hab1 q hq), fun h' => by simp [hd'] at h'⟩
 
@@ -1369,7 +1407,7 @@ theorem callC_spec {rec : Rec} (ih : IH rec) (c : Nat) (S : Nat → Prop) (hSc :
             (fun p v hp => i1.parents c x hc1 p v hp) (fun p v hp => ⟨v, hp⟩)
             (fun _ p v hp _ => i8 rfl (p, v) hp)
             (fun v hv hdd => by rcases hdd with hdd | hdd; simp [hd'] at hdd; exact absurd hdd (by simp [NoP]))
-        refine ⟨invf.congr rfl rfl rfl hsaved, ?_, i3, rfl, i5, ⟨_, setComp_same _ _ _, rfl, hv0⟩, ?_, ?_,
+        refine ⟨invf.congr rfl rfl rfl hsaved, ?_, i3, rfl, i5, ⟨_, setComp_same _ _ _, rfl, hv0, Or.inl rfl⟩, ?_, ?_,
           fun h' => by simp [hd'] at h'⟩
         · have := (se0'.trans i2).trans (StaticEq.of_setComp (x' := { x with dirty := false }) hc1 rfl rfl rfl)
           exact ⟨this.progs, this.decls, this.comps⟩
@@ -1407,7 +1445,7 @@ theorem getC_spec {rec : Rec} (ih : IH rec) (c : Nat) (S : Nat → Prop) (hSc : 
         exact ⟨fun v hv => (by cases hv), hnn1⟩
       | ok new =>
         simp only at h
-        obtain ⟨inv1, se1, hst1, hcur1, hdead1, ⟨y1, hy1, hyd1, hyv1⟩, hkeep1, hab1, hcl1⟩ := hok1 new rfl
+        obtain ⟨inv1, se1, hst1, hcur1, hdead1, ⟨y1, hy1, hyd1, hyv1, hyj1⟩, hkeep1, hab1, hcl1⟩ := hok1 new rfl
         have w1 : Stat s1 := w.of_staticEq se1
         -- what happens after `_add_parent` (on the enclosing evaluation, if any) succeeded
         have tail : ∀ s2, Inv S NoP s2 → StaticEq s1 s2 → s2.store = s1.store → s2.cur = s1.cur → s2.dead = s1.dead →
@@ -1447,7 +1485,19 @@ theorem getC_spec {rec : Rec} (ih : IH rec) (c : Nat) (S : Nat → Prop) (hSc : 
               s3.cur = s2.cur → s3.dead = s2.dead → PostGet S c s s3 new := by
             intro s3 i3 e3 hc3 hs3 hcu3 hd3
             refine ⟨i3, (se1.trans se2).trans e3, by rw [hs3, hst2, hst1], by rw [hcu3, hcur2, hcur1],
-              by rw [hd3, hdead2, hdead1], ⟨y1, by rw [hc3]; exact hc2, hyd1, hyv1⟩, ?_, ?_, ?_⟩
+              by rw [hd3, hdead2, hdead1], ⟨y1, by rw [hc3]; exact hc2, hyd1, hyv1, ?_⟩, ?_, ?_, ?_⟩
+            · intro x0 hx0
+              rw [hx] at hx0; cases hx0
+              rcases hyj1 with hj | ⟨hj1, hj2, hj3⟩
+              · exact Or.inl hj
+              · refine Or.inr ⟨hj1, hj2, hj3.imp id ?_⟩
+                rintro ⟨e0, he0, hst0⟩
+                refine ⟨e0, he0, Stale.keep (s := s1) (by rw [hs3, hst2]) ?_ hst0⟩
+                intro q y hy hd
+                rw [hc3, hoth2 q ?_]; exact hy
+                intro e
+                obtain ⟨z, hz, hzd⟩ := inv1.stackDirty q (inv1.curStack q e)
+                rw [hy] at hz; cases hz; simp [hd] at hzd
             · intro q y hy hd; rw [hc3]; exact hkeep2 q y hy hd
             · intro q hq hne; rw [hc3]; exact hab2 q hq hne
             · intro p xp hp hxp; rw [hc3]; exact hpar2' p xp hp hxp
@@ -1543,5 +1593,553 @@ theorem exec_IH (f : Nat) : IH (exec f) := by
   | succ f ih =>
     refine ⟨fun c s s' r S w inv hSc hSlt h => ?_, fun k o n s => Or.inr ⟨exec f, rfl⟩⟩
     exact getC_spec ih c S hSc hSlt w inv h
+
+
+/-! ### assignment: the dirty cascade -/
+
+def NoS : Nat → Prop := fun _ => False
+
+/-- the `_set_dirty` entries of every subscriber list are the same -/
+def SameSubs (s s' : St) : Prop :=
+  (∀ o, (s'.regs o).names = (s.regs o).names) ∧
+  ∀ o n t q, Sub.dirty q ∈ (s'.regs o).subs n t ↔ Sub.dirty q ∈ (s.regs o).subs n t
+
+/-- Computeds only went from clean to dirty -/
+def Dirtied (s s' : St) : Prop :=
+  ∀ c, (s.comps c = none → s'.comps c = none) ∧
+    ∀ x, s.comps c = some x → s'.comps c = some x ∨ (x.dirty = false ∧ s'.comps c = some { x with dirty := true })
+
+theorem SameSubs.refl (s : St) : SameSubs s s := ⟨fun _ => rfl, fun _ _ _ _ => Iff.rfl⟩
+theorem SameSubs.trans {s s' s'' : St} (a : SameSubs s s') (b : SameSubs s' s'') : SameSubs s s'' :=
+  ⟨fun o => (b.1 o).trans (a.1 o), fun o n t q => (b.2 o n t q).trans (a.2 o n t q)⟩
+theorem Dirtied.refl (s : St) : Dirtied s s := fun _ => ⟨id, fun _ h => Or.inl h⟩
+theorem Dirtied.trans {s s' s'' : St} (a : Dirtied s s') (b : Dirtied s' s'') : Dirtied s s'' := by
+  intro c
+  refine ⟨fun h => (b c).1 ((a c).1 h), fun x hx => ?_⟩
+  rcases (a c).2 x hx with h | ⟨hd, h⟩
+  · rcases (b c).2 x h with h' | ⟨hd', h'⟩
+    · exact Or.inl h'
+    · exact Or.inr ⟨hd', h'⟩
+  · rcases (b c).2 _ h with h' | ⟨hd', h'⟩
+    · exact Or.inr ⟨hd, h'⟩
+    · simp at hd'
+
+theorem Dirtied.dirty {s s' : St} (a : Dirtied s s') {c : Nat} {x : Comp} (hx : s.comps c = some x)
+    (hd : x.dirty = true) : ∃ y, s'.comps c = some y ∧ y.dirty = true := by
+  rcases (a c).2 x hx with h | ⟨_, h⟩
+  · exact ⟨x, h, hd⟩
+  · exact ⟨_, h, rfl⟩
+
+theorem Inv.mono_P {S P P' : Nat → Prop} {s : St} (inv : Inv S P s) (h : ∀ c, P c → P' c) : Inv S P' s := by
+  refine ⟨inv.stackDirty, inv.curStack, inv.evald, inv.parents, inv.subsOf, ?_⟩
+  intro c x hx hd p v hp
+  have := inv.current c x hx hd p v hp
+  cases p with
+  | obs k => exact this
+  | comp c' =>
+    obtain ⟨y, hy, hv, hdy⟩ := this
+    exact ⟨y, hy, hv, hdy.imp id (h c')⟩
+
+/-- once every subscriber of the freshly dirtied `c0` is dirty, `c0` need not be pending any more -/
+theorem Inv.drop_P {P : Nat → Prop} {s : St} {c0 : Nat} (inv : Inv NoS (fun q => P q ∨ q = c0) s)
+    (hall : ∀ q y k, s.comps q = some y → y.dirty = false → s.keyOf (.comp c0) = some k →
+      Sub.dirty q ∉ (s.regs k.1).subs k.2 .change) : Inv NoS P s := by
+  refine ⟨inv.stackDirty, inv.curStack, inv.evald, inv.parents, inv.subsOf, ?_⟩
+  intro c x hx hd p v hp
+  have := inv.current c x hx hd p v hp
+  cases p with
+  | obs k => exact this
+  | comp c' =>
+    obtain ⟨y, hy, hv, hdy⟩ := this
+    refine ⟨y, hy, hv, ?_⟩
+    rcases hdy with h | h | h
+    · exact Or.inl h
+    · exact Or.inr h
+    · subst h
+      exfalso
+      obtain ⟨_, _, k, hk, _, hm⟩ := inv.parents c x hx (.comp c') v hp
+      exact hall c x k hx hd hk hm
+
+structure CascadeIH (rec : Rec) : Prop where
+  notify : ∀ (k : Key) (o n : Option Int) (s s' : St) (r : R) (P : Nat → Prop), Stat s → Inv NoS P s →
+    rec (.notify k o n) s = some (s', r) →
+    r = .ok 0 ∧ Inv NoS P s' ∧ StaticEq s s' ∧ s'.store = s.store ∧ s'.cur = s.cur ∧ s'.dead = s.dead ∧
+    SameSubs s s' ∧ Dirtied s s' ∧
+    (∀ c, Sub.dirty c ∈ (s.regs k.1).subs k.2 .change → ∃ y, s'.comps c = some y ∧ y.dirty = true)
+
+theorem notifyLoop_cascade {rec : Rec} (ih : CascadeIH rec) (k : Key) (old new : Option Int) :
+    ∀ (xs act : List Sub) (s s' : St) (r : Except Err (List Sub)) (P : Nat → Prop), Stat s → Inv NoS P s →
+    (∀ c, Sub.dirty c ∈ xs → ∃ x, s.comps c = some x) →
+    notifyLoop rec k old new xs act s = some (s', r) →
+    r = .ok (act ++ xs.filter s.alive) ∧ Inv NoS P s' ∧ StaticEq s s' ∧ s'.store = s.store ∧ s'.cur = s.cur ∧
+    s'.dead = s.dead ∧ SameSubs s s' ∧ Dirtied s s' ∧
+    (∀ c, Sub.dirty c ∈ xs → ∃ y, s'.comps c = some y ∧ y.dirty = true) := by
+  intro xs
+  induction xs with
+  | nil =>
+    intro act s s' r P _ inv _ h
+    simp only [notifyLoop] at h
+    injection h with h; injection h with h1 h2; subst h1 h2
+    exact ⟨by simp, inv, StaticEq.refl s, rfl, rfl, rfl, SameSubs.refl s, Dirtied.refl s, fun c hc => by simp at hc⟩
+  | cons x xs ihx =>
+    intro act s s' r P w inv hdef h
+    unfold notifyLoop at h
+    by_cases hal : s.alive x = true
+    · rw [if_neg (by simp [hal])] at h
+      cases x with
+      | dirty c =>
+        obtain ⟨cx, hcx⟩ := hdef c (by simp)
+        simp only [hcx] at h
+        by_cases hcd : cx.dirty = true
+        · rw [if_pos hcd] at h
+          obtain ⟨h1, h2, h3, h4, h5, h6, h7, h8, h9⟩ := ihx (act ++ [Sub.dirty c]) s s' r P w inv
+            (fun c' hc' => hdef c' (by simp [hc'])) h
+          refine ⟨by rw [h1]; simp [hal], h2, h3, h4, h5, h6, h7, h8, ?_⟩
+          intro c' hc'
+          rcases List.mem_cons.mp hc' with hc' | hc'
+          · injection hc' with hc'; subst hc'; exact h8.dirty hcx hcd
+          · exact h9 c' hc'
+        · rw [if_neg hcd] at h
+          have hcd' : cx.dirty = false := by cases hh : cx.dirty <;> simp_all
+          -- `_set_dirty`: mark, then notify the Computable's own subscribers
+          have invd : Inv NoS (fun q => P q ∨ q = c) (s.setComp c { cx with dirty := true }) := by
+            refine (inv.mono_P (P' := fun q => P q ∨ q = c) (fun q hq => Or.inl hq)).update_comp hcx rfl rfl
+              (fun h' => absurd h' (by simp [NoS])) (fun _ => ?_) rfl
+              (fun p v hp => inv.parents c cx hcx p v hp) (fun p v hp => ⟨v, hp⟩) (fun hd0 => by simp at hd0)
+              (fun v hv _ => ⟨hv, Or.inr (Or.inr rfl)⟩)
+            obtain ⟨e1, e2⟩ := inv.evald c cx hcx (by simp [NoS])
+            refine ⟨fun hf => ?_, fun hf => e2 hf⟩
+            have := (e1 hf).1; simp [hcd'] at this
+          have sed : StaticEq s (s.setComp c { cx with dirty := true }) := StaticEq.of_setComp hcx rfl rfl rfl
+          cases hn : rec (.notify (cx.owner, cx.name) cx.value none) (s.setComp c { cx with dirty := true }) with
+          | none => simp [hn] at h
+          | some res =>
+            obtain ⟨s1, r1⟩ := res
+            obtain ⟨g1, g2, g3, g4, g5, g6, g7, g8, g9⟩ := ih.notify _ _ _ _ s1 r1 _ (w.of_staticEq sed) invd hn
+            rw [hn] at h
+            subst g1
+            simp only at h
+            have sed1 : StaticEq s s1 := sed.trans g3
+            -- all subscribers of `c` are dirty now: `c` is no longer pending
+            have inv1 : Inv NoS P s1 := by
+              refine g2.drop_P ?_
+              intro q y kk hq hyd hkk hm
+              have hk0 : (s.setComp c { cx with dirty := true }).keyOf (.comp c) = some (cx.owner, cx.name) := by
+                simp [St.keyOf]
+              have : s1.keyOf (.comp c) = some (cx.owner, cx.name) := by rw [g3.keyOf]; exact hk0
+              rw [this] at hkk; cases hkk
+              obtain ⟨z, hz, hzd⟩ := g9 q ((g7.2 _ _ _ q).mp hm)
+              rw [hq] at hz; cases hz; simp [hyd] at hzd
+            have hdirt : Dirtied s s1 := by
+              refine Dirtied.trans (s' := s.setComp c { cx with dirty := true }) ?_ g8
+              intro q
+              by_cases hq : q = c
+              · subst hq
+                refine ⟨fun hnone => by simp [hcx] at hnone, fun y hy => ?_⟩
+                rw [hcx] at hy; cases hy
+                exact Or.inr ⟨hcd', setComp_same _ _ _⟩
+              · rw [setComp_ne _ _ hq]
+                exact ⟨id, fun y hy => Or.inl hy⟩
+            have hss : SameSubs s s1 := g7
+            obtain ⟨h1, h2, h3, h4, h5, h6, h7, h8, h9⟩ := ihx (act ++ [Sub.dirty c]) s1 s' r P (w.of_staticEq sed1) inv1
+              (fun c' hc' => by
+                obtain ⟨z, hz⟩ := hdef c' (by simp [hc'])
+                obtain ⟨z', hz', _⟩ := sed1.defined hz
+                exact ⟨z', hz'⟩) h
+            have hal1 : s1.alive = s.alive := by funext y; simp [St.alive, g6]
+            refine ⟨by rw [h1, hal1]; simp [hal], h2, sed1.trans h3, h4.trans g4, h5.trans g5, h6.trans g6,
+              hss.trans h7, hdirt.trans h8, ?_⟩
+            intro c' hc'
+            rcases List.mem_cons.mp hc' with hc' | hc'
+            · injection hc' with hc'; subst hc'
+              obtain ⟨z, hz, hzd⟩ := g8.dirty (setComp_same s c' { cx with dirty := true }) rfl
+              exact h8.dirty hz hzd
+            · exact h9 c' hc'
+      | user hh =>
+        simp only [w.progs hh, readAll] at h
+        have invl : Inv NoS P { s with log := s.log ++ [⟨hh, k.1, k.2, old, new⟩] } :=
+          inv.congr rfl rfl rfl inv.curStack
+        have sel : StaticEq s { s with log := s.log ++ [⟨hh, k.1, k.2, old, new⟩] } :=
+          ⟨rfl, fun _ => rfl, (StaticEq.refl s).comps⟩
+        obtain ⟨h1, h2, h3, h4, h5, h6, h7, h8, h9⟩ := ihx (act ++ [Sub.user hh]) _ s' r P (w.of_staticEq sel) invl
+          (fun c' hc' => hdef c' (by simp [hc'])) h
+        have hal1 : St.alive { s with log := s.log ++ [⟨hh, k.1, k.2, old, new⟩] } = s.alive := rfl
+        refine ⟨by rw [h1, hal1]; simp [hal], h2, sel.trans h3, h4, h5, h6, h7, h8, ?_⟩
+        intro c' hc'
+        exact h9 c' (by simpa using hc')
+    · have hal' : s.alive x = false := by cases hh : s.alive x <;> simp_all
+      rw [if_pos (by simp [hal'])] at h
+      obtain ⟨h1, h2, h3, h4, h5, h6, h7, h8, h9⟩ := ihx act s s' r P w inv
+        (fun c' hc' => hdef c' (by simp [hc'])) h
+      refine ⟨by rw [h1]; simp [hal'], h2, h3, h4, h5, h6, h7, h8, ?_⟩
+      intro c' hc'
+      rcases List.mem_cons.mp hc' with hc' | hc'
+      · subst hc'; simp at hal'
+      · exact h9 c' hc'
+
+
+theorem notifyT_cascade {rec : Rec} (ih : CascadeIH rec) (k : Key) (old new : Option Int) {s s' : St} {r : R}
+    {P : Nat → Prop} (w : Stat s) (inv : Inv NoS P s) (h : notifyT rec k old new s = some (s', r)) :
+    r = .ok 0 ∧ Inv NoS P s' ∧ StaticEq s s' ∧ s'.store = s.store ∧ s'.cur = s.cur ∧ s'.dead = s.dead ∧
+    SameSubs s s' ∧ Dirtied s s' ∧
+    (∀ c, Sub.dirty c ∈ (s.regs k.1).subs k.2 .change → ∃ y, s'.comps c = some y ∧ y.dirty = true) := by
+  unfold notifyT at h
+  cases hl : notifyLoop rec k old new ((s.regs k.1).subs k.2 .change) [] s with
+  | none => simp [hl] at h
+  | some res =>
+    obtain ⟨s1, r1⟩ := res
+    obtain ⟨h1, h2, h3, h4, h5, h6, h7, h8, h9⟩ := notifyLoop_cascade ih k old new _ [] s s1 r1 P w inv
+      (fun c hc => by
+        obtain ⟨_, x, hx, _⟩ := inv.subsOf k.1 k.2 .change c hc
+        exact ⟨x, hx⟩) hl
+    rw [hl] at h
+    subst h1
+    simp only at h
+    injection h with h; injection h with g1 g2; subst g1 g2
+    have hss : SameSubs s1 (s1.setReg k.1 ((s1.regs k.1).setSubs k.2 .change
+        ([] ++ ((s.regs k.1).subs k.2 .change).filter s.alive))) := by
+      refine ⟨fun o => ?_, fun o n t q => ?_⟩
+      · by_cases ho : o = k.1
+        · subst ho; simp [Reg.names]
+        · simp [St.setReg, ho]
+      · by_cases ho : o = k.1
+        · subst ho
+          simp only [setReg_same, Reg.setSubs]
+          by_cases hnt : n = k.2 ∧ t = .change
+          · obtain ⟨rfl, rfl⟩ := hnt
+            simp only [and_self, if_true, List.nil_append, List.mem_filter, alive_dirty, and_true]
+            exact (h7.2 _ _ _ q).symm
+          · simp [hnt]
+        · simp [St.setReg, ho]
+    refine ⟨rfl, h2.congr_regs rfl rfl rfl hss.1 hss.2, ?_, h4, h5, h6, h7.trans hss, ?_, ?_⟩
+    · refine h3.trans ⟨rfl, fun o => ?_, fun c => (StaticEq.refl s1).comps c⟩
+      by_cases ho : o = k.1
+      · subst ho; simp
+      · simp [St.setReg, ho]
+    · exact h8
+    · exact h9
+
+theorem cascade_exec (f : Nat) : CascadeIH (exec f) := by
+  induction f with
+  | zero => exact ⟨fun k o n s s' r P _ _ h => by simp [exec] at h⟩
+  | succ f ih => exact ⟨fun k o n s s' r P w inv h => notifyT_cascade ih k o n w inv h⟩
+
+/-- a top-level assignment `owner.name = v` -/
+theorem assign_spec (f : Nat) {k : Key} {v : Int} {s s' : St} {r : R} (w : Stat s) (inv : Inv NoS NoP s)
+    (hcur : s.cur = none) (h : exec f (.assign k v) s = some (s', r)) :
+    r = .ok 0 ∧ Inv NoS NoP s' ∧ StaticEq s s' ∧ s'.cur = none ∧
+    s'.store = (fun k' => if k' = k then v else s.store k') ∧
+    (∀ c x, s.comps c = some x → ∃ x', s'.comps c = some x' ∧ x'.evals = x.evals) := by
+  cases f with
+  | zero => simp [exec] at h
+  | succ f =>
+    simp only [exec, stepF, assignT, hcur, Option.isSome_none, Bool.false_eq_true, false_and, if_false] at h
+    cases hn : exec f (.notify k (some (s.store k)) (some v)) s with
+    | none => simp [hn] at h
+    | some res =>
+      obtain ⟨s1, r1⟩ := res
+      obtain ⟨g1, g2, g3, g4, g5, g6, g7, g8, g9⟩ := (cascade_exec f).notify _ _ _ s s1 r1 NoP w inv hn
+      rw [hn] at h
+      subst g1
+      simp only at h
+      injection h with h; injection h with h1 h2; subst h1 h2
+      refine ⟨rfl, ?_, ⟨g3.progs, g3.decls, g3.comps⟩, g5.trans hcur, by simp [g4], ?_⟩
+      · -- only `current` looks at the store
+        have hsl : ∀ k', St.isSlot { s1 with store := fun k' => if k' = k then v else s1.store k', proc := [] } k' ↔
+            s1.isSlot k' := fun _ => Iff.rfl
+        refine ⟨g2.stackDirty, fun p hp => g2.curStack p hp, g2.evald, ?_, g2.subsOf, ?_⟩
+        · intro c x hx p0 v0 hp0
+          exact g2.parents c x hx p0 v0 hp0
+        · intro c x hx hd p0 v0 hp0
+          have hc0 := g2.current c x hx hd p0 v0 hp0
+          cases p0 with
+          | comp c' => exact hc0
+          | obs k' =>
+            show (if k' = k then v else s1.store k') = v0
+            by_cases hk : k' = k
+            · subst hk
+              exfalso
+              obtain ⟨_, _, kk, hkk, _, hm⟩ := g2.parents c x hx (.obs k') v0 hp0
+              simp only [St.keyOf] at hkk; cases hkk
+              obtain ⟨z, hz, hzd⟩ := g9 c ((g7.2 _ _ _ c).mp hm)
+              have hx' : s1.comps c = some x := hx
+              rw [hx'] at hz; cases hz; simp [hd] at hzd
+            · simp only [hk, if_false]; exact hc0
+      · intro c x hx
+        rcases (g8 c).2 x hx with h' | ⟨_, h'⟩
+        · exact ⟨x, h', rfl⟩
+        · exact ⟨_, h', rfl⟩
+
+
+/-! ### what a function returns "if evaluated right now" -/
+
+/-- the denotation of a pure function in state `s`: Observables are looked up in the store, Computables are
+    evaluated by running *their* function (not by looking at any cache) -/
+inductive Den (s : St) : Tree → Int → Prop
+  | ret (v : Int) : Den s (.ret v) v
+  | read (k : Key) (cont : Int → Tree) (v : Int) (h : Den s (cont (s.store k)) v) : Den s (.read k cont) v
+  | readC (c : Nat) (cont : Int → Tree) (x : Comp) (a v : Int) (hx : s.comps c = some x) (ha : Den s x.tree a)
+      (h : Den s (cont a) v) : Den s (.readC c cont) v
+
+theorem pathR_den {s : St} {t : Tree} {ps : List (PRef × Int)} {v : Int} (hp : PathR t ps v)
+    (hobs : ∀ k x, (PRef.obs k, x) ∈ ps → s.store k = x)
+    (hcomp : ∀ c x, (PRef.comp c, x) ∈ ps → ∃ y, s.comps c = some y ∧ Den s y.tree x) : Den s t v := by
+  induction hp with
+  | ret v => exact .ret v
+  | read k cont x ps v _ ih =>
+    have hx : s.store k = x := hobs k x (by simp)
+    subst hx
+    exact .read k cont v (ih (fun k' x' h' => hobs k' x' (by simp [h'])) (fun c x' h' => hcomp c x' (by simp [h'])))
+  | readC c cont x ps v _ ih =>
+    obtain ⟨y, hy, hd⟩ := hcomp c x (by simp)
+    exact .readC c cont y x v hy hd
+      (ih (fun k' x' h' => hobs k' x' (by simp [h'])) (fun c' x' h' => hcomp c' x' (by simp [h'])))
+
+/-- **a clean Computed holds the value its function would return now** -/
+theorem clean_den {s : St} (inv : Inv NoS NoP s) :
+    ∀ c x, s.comps c = some x → x.dirty = false → ∃ v, x.value = some v ∧ Den s x.tree v := by
+  intro c
+  induction c using Nat.strongRecOn with
+  | _ c ih =>
+    intro x hx hd
+    obtain ⟨e1, e2⟩ := inv.evald c x hx (by simp [NoS])
+    have hf : x.first = false := by
+      cases hxf : x.first with
+      | false => rfl
+      | true => have := (e1 hxf).1; simp [hd] at this
+    obtain ⟨v, ps, hv, hp, hmem⟩ := e2 hf
+    refine ⟨v, hv, pathR_den hp ?_ ?_⟩
+    · intro k a ha
+      exact inv.current c x hx hd (.obs k) a ((hmem _).mp ha)
+    · intro c' a ha
+      have hpar := (hmem _).mp ha
+      obtain ⟨y, hy, hyv, hyd⟩ := inv.current c x hx hd (.comp c') a hpar
+      have hlt : c' < c := (inv.parents c x hx (.comp c') a hpar).1 c' rfl
+      rcases hyd with hyd | hyd
+      · obtain ⟨v', hv', hden⟩ := ih c' hlt y hy hyd
+        rw [hyv] at hv'; cases hv'
+        exact ⟨y, hy, hden⟩
+      · exact absurd hyd (by simp [NoP])
+
+/-! ### the top-level operations -/
+
+/-- conditions under which `owner.name = Computed(func)` is a definition the theorems speak about -/
+structure DefineOK (s : St) (c o n : Nat) (t : Tree) : Prop where
+  fresh : s.comps c = none
+  pure : Pure t
+  ranked : Ranked c t
+  obsKind : ObsKeys (fun k => s.kindAt k = some .obs) t
+  slotKind : s.kindAt (o, n) = some .comp
+  slotFree : ¬ s.isSlot (o, n)
+
+theorem define_pre {s : St} {c o n : Nat} {t : Tree} (w : Stat s) (inv : Inv NoS NoP s) (ok : DefineOK s c o n t) :
+    Stat (s.setComp c { owner := o, name := n, tree := t }) ∧
+    Inv NoS NoP (s.setComp c { owner := o, name := n, tree := t }) := by
+  have hne : ∀ q y, s.comps q = some y → q ≠ c := by
+    intro q y hy e; subst e; rw [ok.fresh] at hy; cases hy
+  have hkind : ∀ k, (s.setComp c { owner := o, name := n, tree := t }).kindAt k = s.kindAt k := fun _ => rfl
+  have hkey : ∀ p k, s.keyOf p = some k → (s.setComp c { owner := o, name := n, tree := t }).keyOf p = some k := by
+    intro p k hk
+    cases p with
+    | obs k' => exact hk
+    | comp c' =>
+      simp only [St.keyOf] at hk ⊢
+      cases hc' : s.comps c' with
+      | none => simp [hc'] at hk
+      | some y => rw [setComp_ne _ _ (hne c' y hc'), hc']; simpa [hc'] using hk
+  have hslot : ∀ k, (s.setComp c { owner := o, name := n, tree := t }).isSlot k → s.isSlot k ∨ k = (o, n) := by
+    rintro k ⟨q, y, hy, rfl⟩
+    by_cases hq : q = c
+    · subst hq; rw [setComp_same] at hy; cases hy; exact Or.inr rfl
+    · rw [setComp_ne _ _ hq] at hy; exact Or.inl ⟨q, y, hy, rfl⟩
+  refine ⟨⟨w.progs, w.regs, ?_, ?_, ?_, ?_, ?_⟩, ⟨fun q hq => by simp [NoS] at hq, fun p hp => inv.curStack p hp, ?_, ?_, ?_, ?_⟩⟩
+  · intro q y hy
+    by_cases hq : q = c
+    · subst hq; rw [setComp_same] at hy; cases hy; exact ok.pure
+    · rw [setComp_ne _ _ hq] at hy; exact w.pure q y hy
+  · intro q y hy
+    by_cases hq : q = c
+    · subst hq; rw [setComp_same] at hy; cases hy; exact ok.ranked
+    · rw [setComp_ne _ _ hq] at hy; exact w.ranked q y hy
+  · intro q y hy
+    by_cases hq : q = c
+    · subst hq; rw [setComp_same] at hy; cases hy; exact ok.obsKind
+    · rw [setComp_ne _ _ hq] at hy; exact w.obsKind q y hy
+  · intro q y hy
+    by_cases hq : q = c
+    · subst hq; rw [setComp_same] at hy; cases hy; exact ok.slotKind
+    · rw [setComp_ne _ _ hq] at hy; exact w.slotKind q y hy
+  · intro q q' y y' hy hy' ho hn
+    by_cases hq : q = c
+    · subst hq; rw [setComp_same] at hy; cases hy
+      by_cases hq' : q' = q
+      · exact hq'.symm
+      · rw [setComp_ne _ _ hq'] at hy'
+        exact absurd ⟨q', y', hy', by simp at ho hn; rw [← ho, ← hn]⟩ ok.slotFree
+    · rw [setComp_ne _ _ hq] at hy
+      by_cases hq' : q' = c
+      · subst hq'; rw [setComp_same] at hy'; cases hy'
+        exact absurd ⟨q, y, hy, by simp at ho hn; rw [ho, hn]⟩ ok.slotFree
+      · rw [setComp_ne _ _ hq'] at hy'
+        exact w.slots q q' y y' hy hy' ho hn
+  · intro q y hy _
+    by_cases hq : q = c
+    · subst hq; rw [setComp_same] at hy; cases hy
+      exact ⟨fun _ => ⟨rfl, rfl⟩, fun h => by simp at h⟩
+    · rw [setComp_ne _ _ hq] at hy; exact inv.evald q y hy (by simp [NoS])
+  · intro q y hy p v hp
+    by_cases hq : q = c
+    · subst hq; rw [setComp_same] at hy; cases hy; simp at hp
+    · rw [setComp_ne _ _ hq] at hy
+      obtain ⟨h1, h2, k, h3, h4, h5⟩ := inv.parents q y hy p v hp
+      refine ⟨h1, fun k' hk' hs => ?_, k, hkey p k h3, h4, h5⟩
+      rcases hslot k' hs with hs' | hs'
+      · exact h2 k' hk' hs'
+      · -- the new slot is declared as a Computable, what `q` read was declared as an Observable
+        subst hs'
+        have := w.obsKeys q y hy
+        exact h2 (o, n) hk' (by
+          exfalso
+          obtain ⟨_, _, kk, hkk, _, _⟩ := inv.parents q y hy p v hp
+          subst hk'
+          -- `q`'s remembered Observable keys come from its function
+          obtain ⟨_, e2⟩ := inv.evald q y hy (by simp [NoS])
+          exact absurd ok.slotKind (by
+            intro hcomp
+            -- find the key among the reads of `q`'s function
+            have hk0 : ∀ (t' : Tree) ps v', ObsKeys (fun k => s.kindAt k = some .obs) t' → PathR t' ps v' →
+                ∀ k x, (PRef.obs k, x) ∈ ps → s.kindAt k = some .obs := by
+              intro t' ps v' hot hpr
+              induction hpr with
+              | ret _ => intro k x hm; simp at hm
+              | read k0 cont x0 ps0 v0 _ ih =>
+                cases hot with | read _ _ hk00 hc00 =>
+                intro k x hm
+                rcases List.mem_cons.mp hm with hm | hm
+                · injection hm with hm1 _; injection hm1 with hm1; subst hm1; exact hk00
+                · exact ih (hc00 _) k x hm
+              | readC c0 cont x0 ps0 v0 _ ih =>
+                cases hot with | readC _ _ hc00 =>
+                intro k x hm
+                rcases List.mem_cons.mp hm with hm | hm
+                · injection hm with hm1 _; cases hm1
+                · exact ih (hc00 _) k x hm
+            by_cases hyf : y.first = true
+            · obtain ⟨e1, _⟩ := inv.evald q y hy (by simp [NoS])
+              rw [(e1 hyf).2] at hp; simp at hp
+            · obtain ⟨v', ps, _, hpr, hmem⟩ := e2 (by cases hh : y.first <;> simp_all)
+              have := hk0 y.tree ps v' (w.obsKind q y hy) hpr (o, n) v ((hmem _).mpr hp)
+              rw [hcomp] at this; cases this))
+  · intro o' n' t' q hq
+    obtain ⟨ht, y, hy, p, v, hp, hk⟩ := inv.subsOf o' n' t' q hq
+    exact ⟨ht, y, by rw [setComp_ne _ _ (hne q y hy)]; exact hy, p, v, hp, hkey p _ hk⟩
+  · intro q y hy hd p v hp
+    by_cases hq : q = c
+    · subst hq; rw [setComp_same] at hy; cases hy; simp at hd
+    · rw [setComp_ne _ _ hq] at hy
+      refine Current.of_eq (s := s) (s' := s.setComp c { owner := o, name := n, tree := t }) rfl ?_
+        (inv.current q y hy hd p v hp)
+      intro c' z hz vv hv hdz
+      exact ⟨z, by rw [setComp_ne _ _ (hne c' z hz)]; exact hz, hv, hdz⟩
+
+
+/-- a quiescent state (between top-level operations) in which everything the theorems need holds -/
+structure Good (s : St) : Prop where
+  stat : Stat s
+  inv : Inv NoS NoP s
+  cur : s.cur = none
+
+inductive OpOK (s : St) : Op → Prop
+  | define (c o n : Nat) (t : Tree) (h : DefineOK s c o n t) : OpOK s (.define c o n t)
+  | assign (k : Key) (v : Int) : OpOK s (.assign k v)
+  | read (c : Nat) : OpOK s (.read c)
+  | observe (k : Key) (h : Nat) : OpOK s (.observe k h)
+  | unobserve (k : Key) (h : Nat) : OpOK s (.unobserve k h)
+  | drop (h : Nat) : OpOK s (.drop h)
+
+/-- reading a Computable at top level -/
+theorem read_spec (fuel : Nat) {s s' : St} {c : Nat} {v : Int} (g : Good s)
+    (h : exec fuel (.readC c) s = some (s', .ok v)) :
+    Good s' ∧ s'.store = s.store ∧ StaticEq s s' ∧
+    ∃ x, s'.comps c = some x ∧ x.dirty = false ∧ x.value = some v ∧ Den s' x.tree v := by
+  obtain ⟨hok, _⟩ := (exec_IH fuel).get c s s' (.ok v) NoS g.stat g.inv (by simp [NoS]) (fun q hq => by simp [NoS] at hq) h
+  have pg := hok v rfl
+  obtain ⟨y, hy, hyd, hyv, _⟩ := pg.clean
+  obtain ⟨v', hv', hden⟩ := clean_den pg.inv c y hy hyd
+  rw [hyv] at hv'; cases hv'
+  exact ⟨⟨g.stat.of_staticEq pg.stat, pg.inv, pg.cur.trans g.cur⟩, pg.store, pg.stat, y, hy, hyd, hyv, hden⟩
+
+theorem mem_dirty_append_user (q h : Nat) (l : List Sub) : Sub.dirty q ∈ l ++ [Sub.user h] ↔ Sub.dirty q ∈ l := by
+  simp
+
+theorem step_good (fuel : Nat) {s s' : St} {op : Op} {v : Int} (g : Good s) (ok : OpOK s op)
+    (h : step fuel s op = some (s', .ok v)) : Good s' := by
+  cases ok with
+  | define c o n t hd =>
+    obtain ⟨w0, i0⟩ := define_pre g.stat g.inv hd
+    exact (read_spec fuel ⟨w0, i0, g.cur⟩ h).1
+  | assign k x =>
+    obtain ⟨_, i, se, hc, _, _⟩ := assign_spec fuel g.stat g.inv g.cur h
+    exact ⟨g.stat.of_staticEq se, i, hc⟩
+  | read c => exact (read_spec fuel g h).1
+  | observe k hh =>
+    simp only [step] at h
+    rcases Reg.observe_spec (g.stat.regs k.1).wf (.one k.2) (.one .change) (Sub.user hh) with
+      ⟨_, r', ho, hdecl, hs⟩ | ⟨_, ho⟩
+    · rw [ho] at h
+      injection h with h; injection h with h1 _; subst h1
+      have se : StaticEq s (s.setReg k.1 r') := StaticEq.of_setReg hdecl
+      refine ⟨g.stat.of_staticEq se, g.inv.congr_regs rfl rfl rfl ?_ ?_, g.cur⟩
+      · intro o
+        by_cases ho' : o = k.1
+        · subst ho'; rw [setReg_same]; exact Reg.names_of_decls hdecl
+        · rw [setReg_ne _ _ ho']
+      · intro o n t q
+        by_cases ho' : o = k.1
+        · subst ho'; rw [setReg_same, hs]
+          split
+          · exact mem_dirty_append_user q hh _
+          · exact Iff.rfl
+        · rw [setReg_ne _ _ ho']
+    · rw [ho] at h; injection h with h; injection h with _ h2; cases h2
+  | unobserve k hh =>
+    simp only [step] at h
+    rcases Reg.unobserve_spec (g.stat.regs k.1).wf s.alive (.one k.2) (.one .change) (Sub.user hh) with
+      ⟨_, ho⟩ | ⟨_, r', ho, hdecl, hs⟩
+    · rw [ho] at h; injection h with h; injection h with _ h2; cases h2
+    · rw [ho] at h
+      injection h with h; injection h with h1 _; subst h1
+      have se : StaticEq s (s.setReg k.1 r') := StaticEq.of_setReg hdecl
+      refine ⟨g.stat.of_staticEq se, g.inv.congr_regs rfl rfl rfl ?_ ?_, g.cur⟩
+      · intro o
+        by_cases ho' : o = k.1
+        · subst ho'; rw [setReg_same]; exact Reg.names_of_decls hdecl
+        · rw [setReg_ne _ _ ho']
+      · intro o n t q
+        by_cases ho' : o = k.1
+        · subst ho'; rw [setReg_same, hs]
+          split
+          · simp [Reg.keep]
+          · exact Iff.rfl
+        · rw [setReg_ne _ _ ho']
+  | drop hh =>
+    simp only [step] at h
+    injection h with h; injection h with h1 _; subst h1
+    exact ⟨⟨g.stat.progs, g.stat.regs, g.stat.pure, g.stat.ranked, g.stat.obsKind, g.stat.slotKind, g.stat.slots⟩,
+      g.inv.congr rfl rfl rfl g.inv.curStack, g.cur⟩
+
+/-- declarations of the owners: distinct names, every one an Observable or a Computable -/
+def DeclsOK (decls : Nat → List Decl) : Prop :=
+  ∀ o, ((decls o).map (·.name)).Nodup ∧ ∀ d ∈ decls o, d.types = [.change]
+
+theorem init_good {decls : Nat → List Decl} (hd : DeclsOK decls) : Good (init decls fun _ => []) := by
+  refine ⟨⟨fun _ => rfl, fun o => ⟨(hd o).1, (hd o).2⟩, ?_, ?_, ?_, ?_, ?_⟩, ⟨?_, ?_, ?_, ?_, ?_, ?_⟩, rfl⟩
+  all_goals first
+    | (intro c x hx; simp [init] at hx)
+    | (intro c c' x x' hx; simp [init] at hx)
+    | (intro c hc; simp [NoS] at hc)
+    | (intro p hp; simp [init] at hp)
+    | (intro o n t c hc; simp [init] at hc)
+    | (intro c x hx _; simp [init] at hx)
 
 end Mesa.Computed
